@@ -1,9 +1,10 @@
 """C18 - bitboards behave as sets of squares."""
 from analysis.runner import rule
+from analysis.cfg import cfg_of
 from analysis.facts import AnchorError
 from analysis import terms as T
 from analysis import chessref as R
-from analysis.effects import subterms, upd_entries
+from analysis.effects import word_equal, sample_words, subterms, upd_entries
 
 THOROUGH_CONFIGS = ['release', 'nobmi2', 'movegen-alone']
 LEVEL = "other"
@@ -106,7 +107,9 @@ def r3(ctx):
         ok = False
         for r in rets:
             w = r[3][0] if r[0] == "adt" else r
-            if w[0] == "bin" and w[1] == op and T.is_const(w[3]) and w[3][1] == amt and w[2] == eng.binop("BitAnd", x, keep):
+            # any formula with the same value on every sample word (single bits, edges, random): `(x & keep) >> 1` and `(x >> 1) & keep'` alike
+            want_w = ("bin", op, ("bin", "BitAnd", x, keep), T.I(amt, w[3][2] if (w[0] == "bin" and T.is_const(w[3]) and len(w[3]) > 2) else "i32"))
+            if word_equal(eng, w, want_w, x) is True:
                 ok = True
         ctx.ob(fn, ok and len(rets) == 1, f"BitBoard::{fn} computes {[T.show(r)[:110] for r in rets]}; expected ({T.show(x)} & {hex(keep[1])}) {'<<' if op == 'Shl' else '>>'} {amt} "
                "(clear the edge the squares would leave over, then move one step)", site=P.body(key).get("def_span"), sample={"edge_cleared": hex(edge[fn]), "shift": f"{op} {amt}"})
@@ -145,6 +148,9 @@ def r4(ctx):
                     bad.append(f"pop on the empty board returns {T.show(lf.ret)} / leaves {T.show(neww)[:60]}")
                 seen.add("empty")
                 continue
+            beyond = [v for t, v in lf.cond if t[0] == "cast" and t[2][0] == "app" and "trailing_zeros" in t[2][1] and isinstance(v, tuple) and v and v[0] == "not" and set(range(64)) <= set(v[1])]
+            if beyond and not tz:
+                continue        # the `64.. =>` arm of the square table: trailing_zeros of a non-zero word is below 64 (infeasible; its panic twin is recorded under C07)
             if len(tz) != 1:
                 bad.append(f"path not keyed by the position of the lowest set bit: {T.show_cond(lf.cond)[:120]}")
                 continue
@@ -154,7 +160,12 @@ def r4(ctx):
             want_new = eng.binop("BitXor", xs, eng.binop("Shl", T.I(1, "u64"), tz[0][0]))
             alt_new = eng.binop("BitXor", xs, T.I(1 << z, "u64"))
             nw = neww[3][0] if neww[0] == "adt" else neww
-            if got_ret != want_ret or nw not in (want_new, alt_new):
+            same = nw in (want_new, alt_new)
+            if not same:
+                # any other way of clearing the lowest set bit (`x & (x - 1)`, `x & !(1 << z)`, ...): compare on words whose lowest set bit is z
+                smp = [((w_ << (z + 1)) | (1 << z)) & ((1 << 64) - 1) for w_ in sample_words()[::3]]
+                same = word_equal(eng, nw, alt_new, xs, samples=smp) is True
+            if got_ret != want_ret or not same:
                 bad.append(f"lowest set bit at {z}: returns {T.show(got_ret)}, leaves {T.show(nw)[:80]}")
             seen.add(z)
         want_seen = set(range(64)) | ({"empty"} if fn == "pop" else set())
@@ -279,12 +290,20 @@ def r7(ctx):
     P = ctx.P
     for elem, op in (("chess_bitboard::pos::Pos", f"{BB}::set"), ("chess_bitboard::BitBoard", "bitor_assign")):
         cl = f"<{BB} as core::iter::traits::collect::FromIterator<{elem}>>::from_iter::{{closure#0}}"
-        ctx.used_body(cl)
-        calls = [t["f"].get("fn", "") for _, t in P.calls(cl)]
-        ctx.ob(f"FromIterator<{elem.rsplit('::',1)[1]}> step", any(c.endswith(op) or c.endswith("::" + op) for c in calls), f"from_iter's fold step calls {calls}, expected {op}", site=P.body(cl).get("def_span"))
+        if cl in P.fns:
+            ctx.used_body(cl)
         outer = cl.rsplit("::{closure", 1)[0]
+        ctx.used_body(outer)
+        # the accumulation step (in a for_each/fold closure or in a loop of from_iter itself) inserts the item / unites the set: any of the equivalent operations
+        accept = ("::set", "::with", "bitor_assign", "::or", "BitOr for chess_bitboard::BitBoard>::bitor") if elem.endswith("Pos") else ("bitor_assign", "::or", "BitOr for chess_bitboard::BitBoard>::bitor")
+        step_fns = [cl] if cl in P.fns else []
+        calls = [t["f"].get("fn", "") for k_ in step_fns + [outer] for _, t in P.calls(k_)]
+        ctx.ob(f"FromIterator<{elem.rsplit('::',1)[1]}> step", any(c.endswith(a_) for c in calls for a_ in accept), f"from_iter's accumulation step calls {[T.short(c)[:40] for c in calls]}, expected one of {accept}",
+               site=P.body(outer).get("def_span"))
         oc = [t["f"].get("fn_args", t["f"].get("fn", "")) for _, t in P.calls(outer)]
-        ctx.ob(f"FromIterator<{elem.rsplit('::',1)[1]}> starts empty and visits every item", any(c.endswith("BitBoard::empty") for c in oc) and any("for_each" in c for c in oc),
+        loops_ = cfg_of(P.body(outer)).loops()
+        visits = any("for_each" in c or c.endswith("Iterator::fold") or "Iterator>::fold" in c or "::fold::<" in c for c in oc) or bool(loops_)
+        ctx.ob(f"FromIterator<{elem.rsplit('::',1)[1]}> starts empty and visits every item", any(c.endswith("BitBoard::empty") for c in oc) and visits,
                f"from_iter calls {[T.short(c)[:40] for c in oc]}", site=P.body(outer).get("def_span"))
     eng = T.Engine(P)
     for src, fn in (("chess_bitboard::pos::Pos", "from_pos"), ("chess_bitboard::pos::File", "from_file"), ("chess_bitboard::pos::Rank", "from_rank"), ("u64", "from_u64")):
